@@ -905,6 +905,24 @@ pub fn run_bpe(ctx: &mut Ctx, c03: bool) {
             tables.push((t, 1));
         }
     }
+    // tables produced by the real trainer on corpora over the same letters (rich enough not to be exhausted)
+    let n_trained = ctx.budget(6, 300);
+    for i in 0..n_trained {
+        let ls = (i % 3) as usize;
+        let letters = letter_sets[ls];
+        let lines: Vec<String> = (0..ctx.rng.random_range(2..=6))
+            .map(|_| {
+                (0..ctx.rng.random_range(3..=9))
+                    .map(|_| (0..ctx.rng.random_range(1..=7)).map(|_| letters[ctx.rng.random_range(0..letters.len() - 1)]).collect::<String>())
+                    .collect::<Vec<_>>()
+                    .join(" ")
+            })
+            .collect();
+        let n_merges = [4usize, 12, 28, 60][ctx.rng.random_range(0..4)];
+        if let Some(t) = crate::props::bpetrain::trained_table(&lines, n_merges, [0u8, 1, 3][ctx.rng.random_range(0..3)]) {
+            tables.push((t, ls));
+        }
+    }
     let nt = ctx.budget(60, 4000);
     for i in 0..nt {
         let ls = (i % 3) as usize;
